@@ -351,6 +351,12 @@ def list_jobs(hname):
                 continue
             for sizes in variants(tpl, budget, 2, rnd_t, 1):
                 jobs.append(dict(harness=hname, label=f'{n} [{t}] holes={sizes}', params=dict(tpl=instantiate(tpl, sizes))))
+        # large fixed documents (300 siblings, 20 KB of multi-byte lines, one 9000-character line): thresholds in the listing code
+        from props_pipe import scale_templates
+        for n, tpl in scale_templates().items():
+            if 'nesting' in n or (tier == 'quick' and n != 'scale-300-siblings'):
+                continue
+            jobs.append(dict(harness=hname, label=f'{n} holes=[1]', params=dict(tpl=instantiate(tpl, [1]))))
         # multi-byte delimiters: the last byte of a default-strategy region is then inside a character as well
         for name in ('pending-siblings-then-ready', 'inline-two-on-a-line', 'unwrap-wrapper-lines-end-multibyte') + (() if tier == 'quick' else ('adjacent-inline', 'tabs-and-columns')):
             if name in base:
